@@ -320,10 +320,11 @@ class DeepARTMAP(BaseEstimator, ClassifierMixin, ClusterMixin):
                 epsilon=epsilon,
             )
 
+        x_off = 0 if self.is_supervised else 1
         for art_i in range(1, self.n_layers):
             y_i = self.layers[art_i - 1].labels_a
             self.layers[art_i] = self.layers[art_i].fit(
-                X[art_i],
+                X[art_i + x_off],
                 y_i,
                 max_iter=max_iter,
                 match_tracking=match_tracking,
